@@ -64,6 +64,15 @@ def build_keys(acc):
         if ks[keyname(bits, e)]["bits"] != bits:
             acc.error("fixture %s has %d bits" % (keyname(bits, e), ks[keyname(bits, e)]["bits"]))
     ks["rsa512e65537"] = norm_key(_find_small("rsa512e65537", 512, 65537))
+    # for every PKCS#1 v1.5 hash: moduli of exactly tLen+10, tLen+11 and tLen+12 octets (RFC 8017 9.2: emLen >= tLen + 11)
+    for hn in B.V15_HASHES:
+        kmin = v15_min_k(hn)
+        for k in (kmin - 1, kmin, kmin + 1):
+            name = "rsaK%d" % k
+            if name not in ks:
+                ks[name] = norm_key(_find_small(name, 8 * k, 65537))
+                if ks[name]["k"] != k:
+                    acc.error("small key %s has %d octets" % (name, ks[name]["k"]))
     for name, kd in ks.items():
         bad = R.rsa_check_key(kd["n"], kd["e"], kd["d"], kd["p"], kd["q"])
         if bad:
@@ -110,6 +119,15 @@ def v15_em(hn, digest, k, with_null=True):
         return R.emsa_pkcs1_v15_encode((B.hash_oid(hn), B.hash_size(hn)), digest, k, with_null)
     except ValueError:
         return None
+
+
+def v15_min_k(hn):
+    """smallest modulus length in octets for which EMSA-PKCS1-v1_5 is defined with this hash (tLen + 11)"""
+    d = bytes(B.hash_size(hn))
+    k = 11
+    while v15_em(hn, d, k) is None:
+        k += 1
+    return k
 
 
 def v15_diagnose(em, hn, digest):
